@@ -108,6 +108,13 @@ class Distribution(Density, ABC):
         
         # If Geometry dimension is None, update it with the inferred dimension
         if inferred_dim and self._geometry.par_dim is None: 
+            if self.is_cond:
+                # The dimension inferred so far is provisional (callable parameters may be longer once they are
+                # conditioned on): report it, but do not fix it on this object (nor on its later conditioned copies)
+                geometry = _DefaultGeometry1D(inferred_dim)
+                if self._name:
+                    geometry._variable_name = self._name
+                return geometry
             self.geometry = inferred_dim
 
         if self._geometry.par_shape is None:
